@@ -147,8 +147,9 @@ def main():
                 if s2 == sm and run(exe_f, out) is None:
                     best = out
         d = os.path.join(C, target, 'regress'); os.makedirs(d, exist_ok=True)
-        shutil.copy(best, os.path.join(d, n))
-        sr = run(exe_r, os.path.join(d, n))
+        reg = os.path.join(d, '%s-%s-.bin' % (n, target))   # '-<target>-' lets `bin/check C09 --replay` pick the target
+        shutil.copy(best, reg)
+        sr = run(exe_r, reg)
         res[n] = dict(target=target, status='ok', sig_minus=sm, sig_repo=sr, size=os.path.getsize(best), source=f)
         print('ok %-40s %-20s %5d bytes  minus: %-50s repo: %s' % (n, target, os.path.getsize(best), sm, sr))
         json.dump(res, open(res_path, 'w'), indent=1)
